@@ -9,7 +9,10 @@ WEAVE = [("varintFOR.c", "for.loops")]
 def F(name, entry, enforce, mode, props, w=None, tier="quick", **kw):
     d = ["FOR_W=%d" % w] if w else []
     d += kw.pop("defs", [])
-    kw.setdefault("timeout", 1800)
+    # odd widths (5, 7) need 15-40 min per job on a loaded machine: generous limit, fewer concurrent jobs
+    kw.setdefault("timeout", 7200 if mode == "M2" else 1800)
+    if mode == "M2":
+        kw.setdefault("mem_gb", 6)
     kw.setdefault("solvers", ["minisat"] if mode != "M1" else ["kissat", "minisat"])
     if mode == "M2":
         kw.setdefault("weave", WEAVE)
